@@ -80,6 +80,12 @@ thread_local! {
     static EVENTS: RefCell<Vec<Ev>> = const { RefCell::new(Vec::new()) };
 }
 
+#[cfg(feature = "asan-poison")]
+unsafe extern "C" {
+    fn __asan_poison_memory_region(addr: *const u8, size: usize);
+    fn __asan_unpoison_memory_region(addr: *const u8, size: usize);
+}
+
 pub struct TrackAlloc;
 
 struct GuardOn(bool);
@@ -224,6 +230,10 @@ unsafe impl GlobalAlloc for TrackAlloc {
                             std::ptr::write_bytes(ptr.add(off), POISON, b.size - off);
                         }
                         s.quarantine.push((raw as usize, raw_layout));
+                        #[cfg(feature = "asan-poison")]
+                        unsafe {
+                            __asan_poison_memory_region(ptr, b.size);
+                        }
                         let ctx = CTX.with(|c| c.get());
                         let _ = EVENTS.try_with(|e| e.borrow_mut().push(Ev::Free { block: addr, watched: true, ctx }));
                     } else {
@@ -316,6 +326,10 @@ pub fn end_case() -> CaseEnd {
         }
         leaked.sort();
         for (raw, layout) in s.quarantine.drain(..) {
+            #[cfg(feature = "asan-poison")]
+            unsafe {
+                __asan_unpoison_memory_region(raw as *const u8, layout.size());
+            }
             unsafe { System.dealloc(raw as *mut u8, layout) };
         }
         s.blocks.clear();
